@@ -14,8 +14,15 @@ data lines as unphase(original), and a second unphase must change nothing.
 Since round E04 also: the header (`unphaseHeader`: lines of the output in order, once and twice; no phase-tag definition left,
 no other line lost), idempotence judged on the whole output including the header (F61), every 4th file also through
 `whatshap unphase -` (standard input), and the bridge `ofC04` from the C04 record model (`c13.of_c04`) on every input.
+Since round E12 also: header variants (0-3 `##phasing` lines anywhere, `##PHASING`, INFO fields named PS/HP, definitions of
+unused phase tags left out), the kept header lines compared as a list (order and multiplicity), bgzipped input, and *edit
+pairs*: a generated file and a random phase-only edit of it (alleles of complete genotypes permuted, separators, HP/PQ/PS and
+`##phasing` added / changed / deleted, every ploidy and call shape) — the model's executable checker `editB` certifies the
+edit (`edit_checker_iff`) and the real `whatshap unphase` must give the same records for both (`unphase_of_checked_edit`).
 """
 import collections, concurrent.futures, json, os, re, shutil, subprocess
+
+import pysam
 
 from harness.gen import sim
 from harness.gen import c13_vcf as G
@@ -23,8 +30,11 @@ from harness.gen import c04_file as F4
 
 RULE = ("case = one generated VCF (1-3 contigs, 0-4 samples, up to 14*scale records; ploidy 1-5 per call, '.', "
         "partially missing, phased/unphased/mixed separators, records without GT, FORMAT fields DP GQ AD FT PS PQ HP in "
-        "random order, dropped trailing fields, multi-ALT/indel/symbolic ALT) run through `whatshap unphase` twice, or one "
-        "phase->unphase->unphase history on a simulated scenario; non-trivial iff the file given to unphase has >= 1 data "
+        "random order, dropped trailing fields, multi-ALT/indel/symbolic ALT; header with 0-3 ##phasing lines anywhere, "
+        "##PHASING, INFO fields named PS/HP, definitions of unused phase tags left out; given as path, on stdin or bgzipped) "
+        "run through `whatshap unphase` twice, or one phase->unphase->phase->unphase history on a simulated scenario, or a file "
+        "and a random phase-only edit of it (alleles of complete genotypes permuted, separators, HP/PQ/PS and ##phasing added / "
+        "changed / deleted; every ploidy) both unphased; non-trivial iff the file given to unphase has >= 1 data "
         "line and >= 1 phased genotype or HP/PQ/PS value; distinct = distinct input text")
 MANIFEST = dict(
     text="Lean 4 theorems about a model of run_unphase's record loop written with Python primitives that raise where "
@@ -34,7 +44,11 @@ MANIFEST = dict(
          "Tied to the working tree by running the real CLI on generated VCFs and comparing field by field with the model, "
          "plus a text-level oracle of the property on every (input, output) pair and phase/unphase/unphase histories; "
          "unphase_header is modelled (only phase lines/definitions go, idempotent with a single phasing line; F61 witness), "
-         "and the edit of C04's writer model is proved to be a phase-only edit (unphase after whatshap phase = unphase)",
+         "and the edit of C04's writer model is proved to be a phase-only edit (unphase after whatshap phase = unphase); "
+         "round E12: exact extent of F61 (idempotent iff <= 1 ##phasing line), kept header lines unchanged as a list, every FORMAT "
+         "definition an output record needs survives, file-level idempotence, an executable checker deciding the phase-only-edit "
+         "relation (certifies the edits the check applies to real files of every ploidy) and invariance along any history of "
+         "phase / unphase steps",
     design_ref="DESIGN.md §5 C13",
     note="trusted: Lean kernel, axioms ⊆ {propext, Classical.choice, Quot.sound}; hand-written model; htslib/pysam parsing "
          "and serialisation are outside the model (the harness reads input and output as plain text); well-formed = GT first "
@@ -132,7 +146,7 @@ def header_observations(ctx, in_text, out_text):
 
 def hlines(text):
     """header lines as the model's `HLine`s: structured lines by (key, ID), other lines by (key, text)"""
-    out = []
+    out, seen = [], set()
     for l in text.split("\n"):
         if not l.startswith("##"):
             continue
@@ -144,6 +158,9 @@ def hlines(text):
         if mid:
             out.append({"key": key, "id": mid.group(1), "text": ""})
         else:
+            if l in seen:          # htslib drops a generic line that repeats an earlier one verbatim (before whatshap sees it)
+                continue
+            seen.add(l)
             out.append({"key": key, "id": None, "text": val})
     return out
 
@@ -168,6 +185,11 @@ def c04_records(samples, recs):
         fmt = r["format"]
         out.append(F4.text_frec(r["fixed"], ":".join(fmt) if fmt else None, [":".join(c) for c in r["calls"]], samples))
     return out
+
+
+def rng_tag(case):
+    """the tag of the second `whatshap phase` of a history: the other one than in the first run"""
+    return "HP" if case["tag"] == "PS" else "PS"
 
 
 def scenario_case(rng):
@@ -217,6 +239,10 @@ def _run(ctx, rng, wd):
             cases.append(c)
         for i in range(n_hist):
             cases.append(scenario_case(rng))
+        for i in range((20 if ctx.quick else 250) * ctx.scale):
+            c = G.gen_case(rng, scale=1 if ctx.quick else rng.choice([1, 2]), exotic=True)
+            c["input"] = "path"
+            cases.append({"kind": "edit", "vcf": c, "edited": G.edit_case(rng, c)})
 
     pool = concurrent.futures.ThreadPoolExecutor(WORKERS)
 
@@ -230,7 +256,14 @@ def _run(ctx, rng, wd):
         d = os.path.join(wd, f"c{idx}")
         os.makedirs(d, exist_ok=True)
         res = {"dir": d}
-        if case.get("kind", "file") == "file":
+        if case.get("kind", "file") == "edit":
+            res["inputs"] = []
+            for label, c in (("original", case["vcf"]), ("edited", case["edited"])):
+                text = G.vcf_text(c)
+                p = os.path.join(d, label + ".vcf")
+                open(p, "w").write(text)
+                res["inputs"].append((label, p, text))
+        elif case.get("kind", "file") == "file":
             text = G.vcf_text(case)
             p = os.path.join(d, "in.vcf")
             open(p, "w").write(text)
@@ -248,6 +281,16 @@ def _run(ctx, rng, wd):
             res["inputs"] = [("original", vcf, text)]
             if rc == 0:
                 res["inputs"].append(("phased", phased, open(phased).read()))
+                # a longer history: phase -> unphase -> phase again (-> unphase below)
+                rcu, outu, erru = unphase(phased)
+                if rcu == 0:
+                    back, rephased = os.path.join(d, "back.vcf"), os.path.join(d, "rephased.vcf")
+                    open(back, "w").write(outu)
+                    rc2, _, err2, _ = sim.whatshap(["phase", "--reference", fa, "-o", rephased, "--tag", rng_tag(case), back, bam], ctx.overlay)
+                    if rc2 == 0:
+                        res["inputs"].append(("rephased", rephased, open(rephased).read()))
+                    else:
+                        res["rephase_err"] = err2[-300:]
         # unphase every input, then unphase the output again
         res["runs"] = []
         for label, p, text in res["inputs"]:
@@ -261,6 +304,10 @@ def _run(ctx, rng, wd):
                 if idx % 4 == 0:
                     rc3, out3, err3 = unphase_stdin(ctx.overlay, text)
                     run.update(rc3=rc3, out3=out3, err3=err3)
+                if case.get("input") == "gz":           # the same file bgzipped
+                    pysam.tabix_compress(p, p + ".gz", force=True)
+                    rc4, out4, err4 = unphase(p + ".gz")
+                    run.update(rc4=rc4, out4=out4, err4=err4)
             res["runs"].append(run)
         shutil.rmtree(d, ignore_errors=True)
         return res
@@ -373,6 +420,17 @@ def _run(ctx, rng, wd):
                 elif run["out3"] != run["out"]:
                     ctx.fail(tag + "`whatshap unphase -` (standard input) writes something else than `whatshap unphase FILE`", case,
                              key="stdin-differs")
+            if "rc4" in run:
+                ctx.dist("gz", "ok" if run["rc4"] == 0 else "fails")
+                if run["rc4"] != 0 or run["out4"] != run["out"]:
+                    ctx.fail(tag + "the bgzipped file gives " + ("an error" if run["rc4"] else "a different output") + " than the plain file",
+                             case, key="gz-differs")
+            # header, independent of the model and order-sensitive: the lines unphase has no business with are the same list
+            keep = lambda t: [l for l in t.split("\n") if l.startswith("##") and not l.startswith("##phasing=")
+                              and not any(l.startswith(f"##FORMAT=<ID={x},") for x in G.PHASE_TAGS)]
+            k_in, k_out = keep(run["in_text"]), keep(run["out"])
+            if k_in != k_out and sorted(k_in) == sorted(k_out):
+                ctx.fail(tag + "the header lines that are kept come out in a different order", case, key="header-order-changed")
             # the bridge from the C04 record model: same records, same result
             mb = run["model_bridge"]
             if "plain" not in mb:
@@ -394,8 +452,38 @@ def _run(ctx, rng, wd):
             if "ok" not in model["fix"] or model["fix"]["ok"] != model["spec"]:
                 ctx.disagree("c13.unphase.fix", case, "unphaseFix differs from unphase", model["fix"])
             ctx.validated()
-        if kind == "history" and len(res["runs"]) == 2 and all(r["rc"] == 0 for r in res["runs"]):
-            a, b = (data_lines(r["out"]) for r in res["runs"])
+        if kind == "edit" and len(res["runs"]) == 2:
+            ra, rb = res["runs"]
+            chk = ctx.model.ask_many([{"op": "c13.isedit", "a": G.model_records(ra["recs"]), "b": G.model_records(rb["recs"])}])[0]
+            if chk != {"edit": True, "same": True}:
+                ctx.disagree("c13.isedit", case, "the generated edit is not a phase-only edit for the model", chk)
+            elif ra["rc"] == 0 and rb["rc"] == 0:
+                pa, pb = (G.parse_vcf_text(r["out"])[2] for r in (ra, rb))
+                n_perm = sum(1 for x, y in zip(ra["recs"], rb["recs"]) for cx, cy in zip(x["calls"], y["calls"])
+                             if x["format"] and y["format"] and x["format"][:1] == ["GT"]
+                             and cx[0].replace("|", "/") != cy[0].replace("|", "/"))
+                ctx.dist("edit_permuted_genotypes", min(n_perm, 12) // 3 * 3)
+                if pa != pb:
+                    first = next((i for i, (x, y) in enumerate(zip(pa, pb)) if x != y), None)
+                    ctx.fail(f"[edit] unphase of a phase-only edited file differs from unphase of the original at record {first}: "
+                             f"{pa[first] if first is not None else len(pa)} vs {pb[first] if first is not None else len(pb)}",
+                             case, key="unphase-edit-neq-unphase")
+                keep = lambda t: [l for l in t.split("\n") if l.startswith("##") and not l.startswith("##phasing=")]
+                if keep(ra["out"]) != keep(rb["out"]):
+                    ctx.fail("[edit] the unphased headers of original and edited file differ beyond ##phasing lines", case,
+                             key="unphase-edit-header-differs")
+        if kind == "history" and res.get("rephase_err"):
+            ctx.observe("second whatshap phase of a history failed: " + res["rephase_err"][-100:])
+        if kind == "history" and len(res["runs"]) == 3 and all(r["rc"] == 0 for r in res["runs"]):
+            a, c3 = data_lines(res["runs"][0]["out"]), data_lines(res["runs"][2]["out"])
+            ctx.dist("history_length", "phase-unphase-phase-unphase")
+            if a != c3:
+                first = next((i for i, (x, y) in enumerate(zip(a, c3)) if x != y), None)
+                ctx.fail(f"[history] unphase(phase(unphase(phase(v)))) differs from unphase(v) at data line {first}: "
+                         f"{(a[first] if first is not None else len(a))!r} vs {(c3[first] if first is not None else len(c3))!r}",
+                         case, key="unphase-history-neq-unphase")
+        if kind == "history" and len(res["runs"]) >= 2 and all(r["rc"] == 0 for r in res["runs"][:2]):
+            a, b = (data_lines(r["out"]) for r in res["runs"][:2])
             phased_text = res["runs"][1]["in_text"]
             ctx.dist("history_phased_calls", min(sum(l.count("|") for l in data_lines(phased_text)), 20) // 4 * 4)
             if a != b:
